@@ -1,4 +1,5 @@
 import CuriesVerif.Model.Csv
+import CuriesVerif.Model.Header
 import CuriesVerif.Model.Files
 import CuriesVerif.Check
 import CuriesVerif.Spec.W3C
@@ -26,7 +27,7 @@ def handle (j : Json) : Except String Json := do
     let fails ← match j.getObjVal? "obs" with
       | .ok o => do
         let obs ← (← o.getArr?).toList.mapM Codec.val
-        pure (specCheck steps obs)
+        pure (specCheck (mkFold tbl) steps obs)
       | .error _ => pure []
     pure (Json.mkObj [("model", .arr (vals.map Codec.encVal).toArray),
       ("fail", .arr (fails.map Json.str).toArray)])
@@ -120,7 +121,19 @@ def handle (j : Json) : Except String Json := do
       pure (Ref.fromCurie cls (← Codec.str (← x.getObjVal? "s")) name (if useConv then conv else none))
     let encRef (r : Ref) : Json := Json.mkObj [("p", Codec.encStr r.pfx), ("i", Codec.encStr r.ident),
       ("n", Codec.encOptStr r.name)]
+    -- "fromref": [{"c": target class, "src": index into refs, "conv": bool}, …]
+    let fromrefs ← (← (Codec.fieldD j "fromref" (.arr #[])).getArr?).toList.mapM fun x => do
+      let c ← (← x.getObjVal? "c").getNat?
+      let cls : RefClass := match c with | 0 => .tuple | 1 => .reference | 2 => .namable | _ => .named
+      let src ← (← x.getObjVal? "src").getNat?
+      let useConv := Codec.boolD x "conv" false
+      match refs[src]? with
+      | some r => pure (Ref.fromReference cls r (if useConv then conv else none))
+      | none => throw "fromref: no such reference"
     pure (Json.mkObj [
+      ("fromref", .arr (fromrefs.map fun r => match r with
+        | .ok x => encRef x
+        | .error e => Json.mkObj [("e", .str e.name)]).toArray),
       ("curies", .arr (refs.map fun r => Codec.encStr r.curie).toArray),
       ("eq", .arr (refs.map fun a => Json.arr (refs.map fun b => Json.bool (a.eq b)).toArray).toArray),
       ("hasheq", .arr (refs.map fun a => Json.arr (refs.map fun b => Json.bool (a.hashKey == b.hashKey)).toArray).toArray),
@@ -153,6 +166,20 @@ def handle (j : Json) : Except String Json := do
       ("read", match Files.readTriples .reference text with
         | .ok l => .arr (l.map fun t => Json.arr #[encRef t.1, encRef t.2.1, encRef t.2.2]).toArray
         | .error e => Json.mkObj [("e", .str e.name)])])
+  | "header_text" =>
+    -- {"k":"header_text","space":[code points],"synonyms":[[k,v]…],"supported":[…],"default":str,"texts":[str|null,…]}
+    let spaces ← (← (← j.getObjVal? "space").getArr?).toList.mapM (·.getNat?)
+    let syn ← Codec.pairs (← j.getObjVal? "synonyms")
+    let sup ← Codec.strs (← j.getObjVal? "supported")
+    let dflt ← Codec.str (← j.getObjVal? "default")
+    let texts ← (← (← j.getObjVal? "texts").getArr?).toList.mapM fun t =>
+      match t with
+      | .null => pure none
+      | t => do pure (some (← Codec.str t))
+    pure (Json.mkObj [("types", .arr (texts.map fun t =>
+      match Header.handleHeaderText (fun c => spaces.contains c) syn sup dflt t with
+      | .ok x => Codec.encStr x
+      | .error e => Json.mkObj [("e", .str e.name)]).toArray)])
   | "csv" =>
     -- {"k":"csv","d":code point,"texts":[str,…],"tables":[[[cell,…],…],…]} → parsed rows of each text, text of each table
     let d ← (← j.getObjVal? "d").getNat?
